@@ -196,3 +196,32 @@ def run(repo: Repo, rep: Report) -> None:
 
     # ------------------------------------------------------------------ (d)  n3() text form: string escape tables (shared with C03)
     escape_table_rules(repo, rep, "C07.d-n3-string-escapes")
+
+    # ------------------------------------------------------------------ (e)
+    rep.rule("C07.e-from-n3-forwards-context",
+             "util.from_n3 passes its resolution context on in the recursive call that resolves a literal's datatype: the caller's namespace manager "
+             "(and default / backend) - otherwise a prefixed datatype is resolved against a different prefix table than the one n3() wrote it with", floor=1)
+    um = repo.mod("rdflib.util")
+    f = um.func("from_n3")
+    params = [a.arg for a in f.args.args]
+    ctx_params = [p for p in params[1:]]
+    rec = [c for c in own_nodes(f) if isinstance(c, ast.Call) and norm(c.func) == "from_n3"]
+    dt_calls = []
+    for c in rec:
+        # the datatype call: its result is assigned to a name containing 'datatype' or used as datatype=
+        par_ = um.parent.get(id(c))
+        if isinstance(par_, ast.Assign) and "datatype" in norm(par_.targets[0]).lower():
+            dt_calls.append(c)
+    if not dt_calls:
+        raise AnalysisError("from_n3: recursive datatype resolution call not found")
+    for c in dt_calls:
+        passed = {}
+        for i, a in enumerate(c.args):
+            if i < len(params):
+                passed[params[i]] = norm(a)
+        for k in c.keywords:
+            if k.arg:
+                passed[k.arg] = norm(k.value)
+        missing = [p for p in ctx_params if passed.get(p) != p]
+        rep.ob("C07.e-from-n3-forwards-context", um, "from_n3", c, not missing,
+               "forwards %s" % ctx_params if not missing else "the datatype is resolved without the caller's %s: text written by n3(namespace_manager) is read back with another prefix table" % missing, node=c)
